@@ -155,12 +155,15 @@ CHECKS = {
     'C01': sys_property('C01', also_loop=True),
     'C02': sys_property('C02', also_loop=True),
     'C05': sys_property('C05'),
+    'C06': sys_property('C06', also_loop=True),
+    'C10': sys_property('C10'),
+    'C17': sys_property('C17'),
     'C12': sys_property('C12'),
     'C14': sys_property('C14'),
     'C15': sys_property('C15'),
     'C03': loop_property('C03'),
     'C04': sys_property('C04', also_loop=True),
-    'C07': loop_property('C07', "loop-level part: strategy dispatch, callback order, failure of started during restart"),
+    'C07': sys_property('C07', also_loop=True),
     'C11': loop_property('C11'),
     'C13': loop_property('C13'),
 }
